@@ -19,7 +19,7 @@ E2_EQUIV = ['stream-ref-inplace', 'aes256gcm-aesni-inplace', 'aegis128l-aesni-in
 
 def obligations(tier):
     obs = []
-    deltas = range(-80, 81) if tier == "thorough" else QD
+    deltas = sorted(set(range(-49, 50)) | set(range(-80, 81, 4)) | set(QD)) if tier == "thorough" else QD
     mlens = [0, 1, 16, 31, 32, 33, 40, 48] if tier == "thorough" else QM
     for v in (0, 1):
         for form in (0, 1, 2, 3):
@@ -33,5 +33,5 @@ def obligations(tier):
                                   defs={"SBVAR": v, "FORM": form, "DELTA": "(%d)" % d, "MLEN": ml}, unwind=420,
                                   timeout=300, tier="quick" if q else "thorough", family="secretbox-overlap-" + SBNAME[v],
                                   desc="secretbox easy/open_easy/detached/open_detached with output at input+DELTA == disjoint run; inner stream calls alias-safe",
-                                  bounds="all key/nonce/message bytes; DELTA enumerated (quick 17 values, thorough every -80..80), mlen enumerated"))
+                                  bounds="all key/nonce/message bytes; DELTA enumerated (quick 17 values, thorough every -49..49 and every 4th up to +-80), mlen enumerated"))
     return obs
